@@ -305,10 +305,13 @@ Proof.
     rewrite Hp, Hf in H. destruct (fport m) as [[|?]|]; now injection H.
   - exists m. split; [exact Hp|]. right. exists b. split; [exact Hne|]. split; [exact Hb|].
     intros Hn. cbv zeta. specialize (Hq Hn). subst p'. cbn [with_frm pl fport frm] in H.
-    destruct (fport m) as [[|?]|]; try (now injection H).
-    unfold phy_decode_frm in H. cbn [with_frm pl fport frm mtype hdr] in H.
-    match type of H with bind ?d _ = _ => destruct d as [cs| | |] eqn:Hdec end; cbn [bind] in H; try discriminate.
-    injection H as <-. apply decode_payloads_ok in Hdec as (b' & [= <-] & Hdec). exists cs. split; auto.
+    destruct (fport m) as [[|?]|] eqn:Ef.
+    + unfold phy_decode_frm in H. cbn [with_frm pl fport frm mtype hdr] in H. rewrite Ef in H.
+      match type of H with bind ?d _ = _ => destruct d as [cs| | |] eqn:Hdec end; cbn [bind] in H; try discriminate.
+      injection H as <-. apply decode_payloads_ok in Hdec as (b' & [= <-] & Hdec). exists cs. split; [exact Hdec|].
+      unfold with_frm. cbn [mtype major pl mic hdr fport]. now rewrite ?Ef.
+    + now injection H.
+    + now injection H.
 Qed.
 
 (* no entry point succeeds on something that is not a data frame *)
@@ -333,4 +336,29 @@ Proof.
     - cbn in Hb. injection Hb as <-. simpl in Hl. lia.
     - rewrite Hb. cbn [bind]. now rewrite fopts_too_long. }
   split; [exact E|]. unfold phy_decrypt_fopts. now rewrite E.
+Qed.
+
+(* C03-2 (repaired): DecodeFRMPayloadToMACCommands turns a non-empty FRMPayload into MAC commands only when FPort = 0;
+   with another FPort, or none, the step is refused and the application octets stay what they are *)
+Theorem phy_decode_frm_refuses_application_port reg p m :
+  pl p = PLMac m -> frm m <> [] -> fport m <> Some 0 -> phy_decode_frm reg p = Err.
+Proof.
+  intros Hp Hf Hq. unfold phy_decode_frm. rewrite Hp. destruct (frm m); [contradiction|].
+  destruct (fport m) as [[|?]|]; try reflexivity. now destruct Hq.
+Qed.
+
+Theorem phy_decode_frm_ok reg p q :
+  phy_decode_frm reg p = Ok q ->
+  exists m, pl p = PLMac m /\
+    ((frm m = [] /\ q = p) \/
+     (fport m = Some 0 /\ exists b cs, frm m = [IData b] /\ decode_stream reg (is_uplink (mtype p)) b = Ok cs /\
+                                        q = with_frm p m cs)).
+Proof.
+  unfold phy_decode_frm. destruct (pl p) as [| | | |m| |] eqn:Hp; try discriminate.
+  intros H. exists m. split; [reflexivity|].
+  destruct (frm m) as [|it its] eqn:Hf.
+  - left. injection H as <-. auto.
+  - right. destruct (fport m) as [[|?]|]; try discriminate. split; [reflexivity|].
+    match type of H with bind ?d _ = _ => destruct d as [cs| | |] eqn:Hdec end; cbn [bind] in H; try discriminate.
+    injection H as <-. apply decode_payloads_ok in Hdec as (b & Hb & Hdec). exists b, cs. auto.
 Qed.
